@@ -674,7 +674,7 @@ def main() -> int:
     setup_process()
     vseed = core.verif_seed()
     print(f"VERIF_SEED={vseed} property={PROP} tier={args.tier} tree={core.src_dir()} workers={core.workers()}")
-    nruns = args.runs if args.runs is not None else (6000 if args.tier == "quick" else 400_000)
+    nruns = args.runs if args.runs is not None else int(os.environ.get("VERIF_RUNS") or (6000 if args.tier == "quick" else 80_000))
     nfresh = args.fresh if args.fresh is not None else (32 if args.tier == "quick" else 256)
     tasks = [{"indices": ch, "vseed": vseed, "tier": args.tier, "digests": args.digests}
              for ch in runner.chunks(list(range(nruns)), 100 if nruns > 20000 else 20)]
